@@ -467,7 +467,9 @@ func checkC13(c *Ctx, n int) {
 		cliOK := strings.HasPrefix(retB, "RET ok")
 		// an error of the command-line parse that is not about this option (another option's bad
 		// default, a missing command, …) says nothing about the entry/flag equivalence
-		cliAboutTarget := !cliOK && strings.Contains(decodeLine(retB), "`"+target.String()+"'")
+		// (a refusing callback of ANOTHER option may carry the same display name as the target, which is
+		// never a callback itself: sweep seed 5004)
+		cliAboutTarget := !cliOK && strings.Contains(decodeLine(retB), "`"+target.String()+"'") && !strings.Contains(decodeLine(retB), "cberr: ")
 		var ok bool
 		if iniOK {
 			ok = va == vb && !cliAboutTarget
